@@ -23,7 +23,7 @@ for c in linux/386 android/arm64; do
   bin/gabilint -repo "$REPO" -prop "$PROP" -tier thorough -evidence $d -findings /verif/known_findings.json ${CFG[$c]} > $S/cfg.out 2>&1
   rc=$?
   # the replay file of a failing configuration is the one the checker just wrote under /verif/replay
-  grep -E "^property=|VIOLATED|UNDECIDED" $S/cfg.out | cut -c1-400
+  grep -E "^property=|VIOLATED|UNDECIDED|load-failure" $S/cfg.out | cut -c1-400
   if [ $rc -ne 0 ]; then
     mkdir -p /verif/replay; cp $S/replay/$PROP.violations.json /verif/replay/ 2>/dev/null
     echo "VIOLATION property=$PROP replay=/verif/replay/$PROP.violations.json"
